@@ -80,6 +80,13 @@ Definition cannot_start (p : pod) : bool * name :=
 Definition pending_create (p : pod) : bool :=
   existsb (fun c => match cs_waiting c with Some r => N.eqb r R_CONTAINER_CREATING | None => false end) (p_cstats p).
 
+(** kubelet-shaped pod statuses: a non-zero last state carries [Terminated]; a pod with container
+    statuses has a start time (the kubelet sets status.startTime before it reports any container). The malformed
+    shapes make [HighestRestartCount] / [manageCanaryPodFailures] dereference nil: an input assumption of C06/C16. *)
+Definition pod_shape_ok (p : pod) : bool :=
+  forallb (fun cs => match cs_last cs with LTNoTerm => false | _ => true end) (p_cstats p) &&
+  (match p_cstats p with [] => true | _ => match p_start p with Some _ => true | None => false end end).
+
 (** ** Up-to-date comparison ([compareCurrentPodWithNewPod]) *)
 Fixpoint assoc_res (k : name) (l : list (name * resources)) : option resources :=
   match l with
